@@ -115,6 +115,7 @@ func main() {
 	}
 	var results []*FuncResult
 	var all []*Obligation
+	var batches []*Obligation
 	nfun := 0
 	for _, fc := range prog.Order {
 		if fc.Assumed {
@@ -130,6 +131,7 @@ func main() {
 		r := VerifyFunc(prog, ss, reg, fc)
 		results = append(results, r)
 		all = append(all, r.Obls...)
+		batches = append(batches, r.Batches...)
 	}
 	// lemma obligations for the folds
 	lemmaSeen := map[string]bool{}
@@ -162,7 +164,18 @@ func main() {
 		}
 		return
 	}
-	Discharge(em, all, dir, *timeout, *workers, *keep != "")
+	// conjunctions first: a discharged batch discharges its members
+	Discharge(em, batches, dir, min(*timeout, 5), *workers, false)
+	var rest []*Obligation
+	for _, o := range all {
+		if o.InBatch != nil && o.InBatch.Verdict == "DISCHARGED" {
+			o.Verdict, o.Solver, o.Time = "DISCHARGED", o.InBatch.Solver+" (batch)", 0
+			continue
+		}
+		rest = append(rest, o)
+	}
+	failures.Store(0)
+	Discharge(em, rest, dir, *timeout, *workers, *keep != "")
 	if *stability > 0 {
 		Stability(em, all, dir, *stability, *workers)
 	}
